@@ -180,9 +180,22 @@ func (in *Interp) callFunction(fn *ssa.Function, args []Value, fv []Value, g *Te
 	if g.IsFalse() {
 		return in.zeroResults(fn.Signature)
 	}
+	// a method called on a guarded union of receivers runs once per alternative
+	if u, ok := firstUnion(args); ok && fn.Signature.Recv() != nil {
+		return in.mapAlts(u, func(ag *Term, v Value) Value {
+			gg := in.ts.And(g, ag)
+			if gg.IsFalse() {
+				return nil
+			}
+			na := append([]Value{v}, args[1:]...)
+			return in.callFunction(fn, na, fv, gg)
+		})
+	}
 	if intr := in.lookupIntrinsic(fn); intr != nil {
 		in.stubLog[intrinsicName(fn)]++
-		return intr(in, fn, args, g)
+		var r Value
+		in.withGuard(g, func() { r = intr(in, fn, args, g) })
+		return r
 	}
 	if isInitFn(fn) && in.lenient > 0 && in.cur.frame != nil && in.cur.frame.fn != nil && isInitFn(in.cur.frame.fn) {
 		return nil // imported package's init: lazily done
@@ -253,6 +266,14 @@ func (in *Interp) callFunction(fn *ssa.Function, args []Value, fv []Value, g *Te
 		}
 	}
 	return in.mergeRets(f)
+}
+
+func firstUnion(args []Value) (*Union, bool) {
+	if len(args) == 0 {
+		return nil, false
+	}
+	u, ok := args[0].(*Union)
+	return u, ok
 }
 
 func (in *Interp) zeroResults(sig *types.Signature) Value {
@@ -417,7 +438,7 @@ func (in *Interp) execBlock(f *Frame, b *ssa.BasicBlock, g *Term) {
 		in.skipBlock(f, b)
 		return
 	}
-	if in.cfg.Prune && !g.IsTrue() && !in.isKnown(g) && !in.feasible(g) {
+	if (in.cfg.Prune || f.fi.loopOf[b.Index] != nil) && !g.IsTrue() && !in.isKnown(g) && !in.feasible(g) {
 		in.skipBlock(f, b)
 		return
 	}
